@@ -298,4 +298,4 @@ def run(chk, ctx):
     scoping_rules(chk, P)
     for lem in ("SIGIDX", "ROWWIDTH", "INPUTIDX", "RESIDUAL"):
         L.need(lem)
-    chk.not_decided = ["the contrived overlap where one header column is bound by two signals (A_out as bidirectional A's expected column and as an input pin named A_out)"]
+    chk.not_decided = []
